@@ -35,6 +35,14 @@ func init() {
 		Old: "precedence < p.peekPrecedence()", New: "precedence <= p.peekPrecedence()", Expect: "R3"})
 	addMutant(Mutant{Name: "infix-prec-minus-one", Prop: "C06", File: "parser/parser.go",
 		Old: "expression.Right = p.parseExpression(precedence)", New: "expression.Right = p.parseExpression(precedence - 1)", Expect: "R3"})
+	addMutant(Mutant{Name: "infix-level-read-after-advance", Prop: "C06", File: "parser/parser.go",
+		Old: "	precedence := p.curPrecedence()\n	p.nextToken()\n	expression.Right = p.parseExpression(precedence)", New: "	p.nextToken()\n	precedence := p.curPrecedence()\n	expression.Right = p.parseExpression(precedence)", Expect: "R3"})
+	addMutant(Mutant{Name: "infix-level-of-peek-token", Prop: "C06", File: "parser/parser.go",
+		Old: "	precedence := p.curPrecedence()\n	p.nextToken()", New: "	precedence := p.peekPrecedence()\n	p.nextToken()", Expect: "R3"})
+	addMutant(Mutant{Name: "pratt-compares-current-level", Prop: "C06", File: "parser/parser.go",
+		Old: "precedence < p.peekPrecedence()", New: "precedence < p.curPrecedence()", Expect: "R3"})
+	addMutant(Mutant{Name: "peek-lookup-falls-back-higher", Prop: "C06", File: "parser/parser.go",
+		Old: "func (p *parser) peekPrecedence() int {\n	if p, ok := precedences[p.peekToken.Type]; ok {\n		return p\n	}\n\n	return LOWEST", New: "func (p *parser) peekPrecedence() int {\n	if p, ok := precedences[p.peekToken.Type]; ok {\n		return p\n	}\n\n	return EQUALS", Expect: "R1"})
 	addMutant(Mutant{Name: "ints-lt-gt-swapped", Prop: "C06", File: "compiler.go",
 		Old: "	case \"<\":\n		return l < r, nil\n	case \">\":\n		return l > r, nil\n	case \"!=\":\n		return l != r, nil\n	case \">=\":\n		return l >= r, nil\n	case \"<=\":\n		return l <= r, nil\n	case \"==\":\n		return l == r, nil\n	}\n	return nil, fmt.Errorf(\"unknown operator for integer %s\", op)",
 		New: "	case \"<\":\n		return l > r, nil\n	case \">\":\n		return l > r, nil\n	case \"!=\":\n		return l != r, nil\n	case \">=\":\n		return l >= r, nil\n	case \"<=\":\n		return l <= r, nil\n	case \"==\":\n		return l == r, nil\n	}\n	return nil, fmt.Errorf(\"unknown operator for integer %s\", op)", Expect: "R4"})
